@@ -469,5 +469,14 @@ def task_rng(ctx):
     ctx.assume_note("A4: get_rng_state/set_rng_state round-trip the generator state")
 
 
-TASKS_QUICK = ["open_resume", "resume_D_CVF", "resume_D_cvf", "resume_d_CvF", "resume_d_cVf", "fresh_ordering", "atomic_save", "frames", "xyz", "rng"]
+def task_xl_resume(ctx):
+    """XL-BOMD / KSA engines: the auxiliary density a resumed run continues from is P(step_done) (every k, every phase)."""
+    from contracts import C09_xlbomd as C09
+
+    ctx.under_contract(MD + ":Molecular_Dynamics_Basic.run_from_checkpoint", stubs=["_load_checkpoint_base", "_restore_rng", "XL_BOMD (fake class capturing _xl_ctx)"])
+    C09.resume_rule(ctx)
+    ctx.assume_note("history-buffer invariant Pt[j] = P(step_done - ((step_done mod m + j) mod m)) is established by XL_BOMD.one_step (C09 task history)")
+
+
+TASKS_QUICK = ["xl_resume", "open_resume", "resume_D_CVF", "resume_D_cvf", "resume_d_CvF", "resume_d_cVf", "fresh_ordering", "atomic_save", "frames", "xyz", "rng"]
 TASKS_THOROUGH = TASKS_QUICK
